@@ -159,7 +159,12 @@ impl<T: Elem> Case for RegCase<T> {
         );
     }
     fn call(&self) -> String {
-        let mut s = format!("{} x {} batch(es) of {} lanes", self.routine(), self.batches(), self.unit());
+        let mut s = format!(
+            "{} x {} batch(es) of {} lanes",
+            self.routine(),
+            self.batches(),
+            self.unit()
+        );
         if self.x.len() <= 8 {
             let _ = write!(s, "; x={:?}", self.x);
             if self.op.arity() >= 2 {
@@ -349,7 +354,7 @@ unsafe fn eval<T: Elem, R: SimdRegister<T>>(c: &RegCase<T>, ar: &mut Arenas) -> 
                 if let Some(d) = ar.r.check(ar.window).or_else(|| ar.a.check(ar.window)) {
                     return RegOut::Canary(d);
                 }
-            },
+            }
             (Base::Filled, false) => push_reg::<T, R>(R::filled(*x), &mut out),
             (Base::Filled, true) => push_dense::<T, R>(R::filled_dense(*x), &mut out),
             (Base::Zeroed, false) => push_reg::<T, R>(R::zeroed(), &mut out),
@@ -366,22 +371,22 @@ unsafe fn eval<T: Elem, R: SimdRegister<T>>(c: &RegCase<T>, ar: &mut Arenas) -> 
             ),
             (Base::Add, true) => {
                 push_dense::<T, R>(R::add_dense(dense_of::<T, R>(x), dense_of::<T, R>(y)), &mut out)
-            },
+            }
             (Base::Sub, true) => {
                 push_dense::<T, R>(R::sub_dense(dense_of::<T, R>(x), dense_of::<T, R>(y)), &mut out)
-            },
+            }
             (Base::Mul, true) => {
                 push_dense::<T, R>(R::mul_dense(dense_of::<T, R>(x), dense_of::<T, R>(y)), &mut out)
-            },
+            }
             (Base::Div, true) => {
                 push_dense::<T, R>(R::div_dense(dense_of::<T, R>(x), dense_of::<T, R>(y)), &mut out)
-            },
+            }
             (Base::Min, true) => {
                 push_dense::<T, R>(R::min_dense(dense_of::<T, R>(x), dense_of::<T, R>(y)), &mut out)
-            },
+            }
             (Base::Max, true) => {
                 push_dense::<T, R>(R::max_dense(dense_of::<T, R>(x), dense_of::<T, R>(y)), &mut out)
-            },
+            }
             (Base::Fmadd, true) => push_dense::<T, R>(
                 R::fmadd_dense(dense_of::<T, R>(x), dense_of::<T, R>(y), dense_of::<T, R>(z)),
                 &mut out,
@@ -455,12 +460,18 @@ fn lane_ok<T: Elem>(c: &RegCase<T>, want: T, got: T, alt: Option<T>) -> bool {
                 }
             };
             one(want) || alt.map(one).unwrap_or(false)
-        },
+        }
     }
 }
 
 fn fail(c_kind: &'static str, class: &'static str, e: String, a: String, n: String) -> Verdict {
-    Some(Fail { kind: c_kind, class, expected: e, actual: a, note: n })
+    Some(Fail {
+        kind: c_kind,
+        class,
+        expected: e,
+        actual: a,
+        note: n,
+    })
 }
 
 fn judge<T: Elem>(c: &RegCase<T>, out: Result<RegOut<T>, String>) -> Verdict {
@@ -473,9 +484,15 @@ fn judge<T: Elem>(c: &RegCase<T>, out: Result<RegOut<T>, String>) -> Verdict {
             return if int_div_zero {
                 None
             } else {
-                fail("unexpected_panic", "unexpected_panic", "returns normally".into(), format!("panic: {msg}"), String::new())
+                fail(
+                    "unexpected_panic",
+                    "unexpected_panic",
+                    "returns normally".into(),
+                    format!("panic: {msg}"),
+                    String::new(),
+                )
             };
-        },
+        }
         Ok(RegOut::Canary(d)) => {
             return fail(
                 "canary",
@@ -484,7 +501,7 @@ fn judge<T: Elem>(c: &RegCase<T>, out: Result<RegOut<T>, String>) -> Verdict {
                 d,
                 "out-of-bounds write detected by canary bytes".into(),
             )
-        },
+        }
         Ok(RegOut::Lanes(v)) => v,
     };
     if int_div_zero {
@@ -507,7 +524,13 @@ fn judge<T: Elem>(c: &RegCase<T>, out: Result<RegOut<T>, String>) -> Verdict {
     };
     let expect_len = |n: usize| -> Verdict {
         if got.len() != n {
-            fail("impl_vs_oracle", "shape", format!("{n} lanes"), format!("{} lanes", got.len()), "harness".into())
+            fail(
+                "impl_vs_oracle",
+                "shape",
+                format!("{n} lanes"),
+                format!("{} lanes", got.len()),
+                "harness".into(),
+            )
         } else {
             None
         }
@@ -531,13 +554,17 @@ fn judge<T: Elem>(c: &RegCase<T>, out: Result<RegOut<T>, String>) -> Verdict {
                 }
             }
             None
-        },
+        }
         Base::Filled | Base::Zeroed => {
             if let Some(f) = expect_len(u * m) {
                 return Some(f);
             }
             for b in 0..m {
-                let w = if c.op.base == Base::Zeroed { T::from_bits(0) } else { c.x[b * u] };
+                let w = if c.op.base == Base::Zeroed {
+                    T::from_bits(0)
+                } else {
+                    c.x[b * u]
+                };
                 for j in 0..u {
                     let g = got[b * u + j];
                     if w.to_bits() != g.to_bits() {
@@ -546,7 +573,7 @@ fn judge<T: Elem>(c: &RegCase<T>, out: Result<RegOut<T>, String>) -> Verdict {
                 }
             }
             None
-        },
+        }
         Base::Add | Base::Sub | Base::Mul | Base::Div | Base::Min | Base::Max | Base::Fmadd => {
             if let Some(f) = expect_len(u * m) {
                 return Some(f);
@@ -565,14 +592,14 @@ fn judge<T: Elem>(c: &RegCase<T>, out: Result<RegOut<T>, String>) -> Verdict {
                         } else {
                             x
                         }
-                    },
+                    }
                     Base::Max => {
                         if y > x {
                             y
                         } else {
                             x
                         }
-                    },
+                    }
                     _ => {
                         let z = c.z[i];
                         let unf = x.w_mul(y).w_add(z);
@@ -583,16 +610,16 @@ fn judge<T: Elem>(c: &RegCase<T>, out: Result<RegOut<T>, String>) -> Verdict {
                             Fused::Either => {
                                 alt = Some(fus);
                                 unf
-                            },
+                            }
                         }
-                    },
+                    }
                 };
                 if !lane_ok(c, w, got[i], alt) {
                     return bad(i, w, got[i], format!("operands x={} y={}", hexs(x), hexs(y)));
                 }
             }
             None
-        },
+        }
         Base::SumFold | Base::MaxFold | Base::MinFold => {
             // single: fold the L lanes of each register into one value;
             // dense: fold the 8 registers lane-wise into one register
@@ -603,7 +630,13 @@ fn judge<T: Elem>(c: &RegCase<T>, out: Result<RegOut<T>, String>) -> Verdict {
             for g in 0..groups {
                 for o in 0..outs {
                     let items: Vec<T> = (0..count)
-                        .map(|k| if c.op.dense { c.x[g * u + k * stride + o] } else { c.x[g * u + k] })
+                        .map(|k| {
+                            if c.op.dense {
+                                c.x[g * u + k * stride + o]
+                            } else {
+                                c.x[g * u + k]
+                            }
+                        })
                         .collect();
                     let r = got[g * outs + o];
                     match c.op.base {
@@ -632,10 +665,15 @@ fn judge<T: Elem>(c: &RegCase<T>, out: Result<RegOut<T>, String>) -> Verdict {
                                     acc = acc.w_add(*v);
                                 }
                                 if acc != r {
-                                    return bad(g * outs + o, acc, r, format!("wrapping sum of {count} lanes"));
+                                    return bad(
+                                        g * outs + o,
+                                        acc,
+                                        r,
+                                        format!("wrapping sum of {count} lanes"),
+                                    );
                                 }
                             }
-                        },
+                        }
                         _ => {
                             let is_max = c.op.base == Base::MaxFold;
                             let mut acc = items[0];
@@ -647,12 +685,12 @@ fn judge<T: Elem>(c: &RegCase<T>, out: Result<RegOut<T>, String>) -> Verdict {
                             if !lane_ok(c, acc, r, None) {
                                 return bad(g * outs + o, acc, r, format!("extreme of {count} lanes"));
                             }
-                        },
+                        }
                     }
                 }
             }
             None
-        },
+        }
     }
 }
 
@@ -673,7 +711,16 @@ struct Driver<'a, T: Elem> {
 
 impl<T: Elem> Driver<'_, T> {
     fn go(&mut self, op: RegOp, x: Vec<T>, y: Vec<T>, z: Vec<T>) {
-        let c = RegCase { reg: self.reg, lanes: self.lanes, fused: self.fused, div_tol: self.div_tol, op, x, y, z };
+        let c = RegCase {
+            reg: self.reg,
+            lanes: self.lanes,
+            fused: self.fused,
+            div_tol: self.div_tol,
+            op,
+            x,
+            y,
+            z,
+        };
         debug_assert!(op.base == Base::Zeroed || (c.x.len() % c.unit() == 0 && !c.x.is_empty()));
         let (ar, eval) = (&mut self.ar, self.eval);
         self.calls += 1;
@@ -698,12 +745,29 @@ fn pad<T: Elem>(v: &mut Vec<T>, unit: usize) {
     }
 }
 
-fn drive<T: Elem>(ctx: &mut Ctx, reg: &'static str, lanes: usize, eval: EvalFn<T>, fused: Fused, div_tol: bool, base: Base) {
+fn drive<T: Elem>(
+    ctx: &mut Ctx,
+    reg: &'static str,
+    lanes: usize,
+    eval: EvalFn<T>,
+    fused: Fused,
+    div_tol: bool,
+    base: Base,
+) {
     let tier = ctx.tier;
     let mut rng = ctx.rng.split();
     let bounds_nan: Vec<T> = vals::boundaries::<T>(true);
     let bounds: Vec<T> = vals::boundaries::<T>(false);
-    let mut d = Driver { ctx, ar: Arenas::new(8 * 64 + 256), eval, reg, lanes, fused, div_tol, calls: 0 };
+    let mut d = Driver {
+        ctx,
+        ar: Arenas::new(8 * 64 + 256),
+        eval,
+        reg,
+        lanes,
+        fused,
+        div_tol,
+        calls: 0,
+    };
     let l = lanes;
     let batch_lanes = 4096usize; // lanes per case in bulk sweeps
     for dense in [false, true] {
@@ -716,7 +780,13 @@ fn drive<T: Elem>(ctx: &mut Ctx, reg: &'static str, lanes: usize, eval: EvalFn<T
                 // one value per batch: first lane of each unit is the value used
                 let nv = tier.pick(256usize, 4096);
                 for i in 0..nv {
-                    let v = if T::BITS == 8 { T::from_bits(i as u64) } else if i < bounds_nan.len() { bounds_nan[i] } else { vals::random_bits::<T>(&mut rng, true) };
+                    let v = if T::BITS == 8 {
+                        T::from_bits(i as u64)
+                    } else if i < bounds_nan.len() {
+                        bounds_nan[i]
+                    } else {
+                        vals::random_bits::<T>(&mut rng, true)
+                    };
                     x.push(v);
                     for _ in 1..u {
                         x.push(T::one());
@@ -728,18 +798,20 @@ fn drive<T: Elem>(ctx: &mut Ctx, reg: &'static str, lanes: usize, eval: EvalFn<T
                 if !x.is_empty() {
                     d.go(op, x, Vec::new(), Vec::new());
                 }
-            },
+            }
             Base::LoadWrite => {
                 let n = tier.pick(40, 400);
                 for _ in 0..n {
                     let k = 1 + rng.usize_below(6);
-                    let x: Vec<T> = (0..k * u).map(|_| vals::mixed(&mut rng, &bounds_nan, true)).collect();
+                    let x: Vec<T> = (0..k * u)
+                        .map(|_| vals::mixed(&mut rng, &bounds_nan, true))
+                        .collect();
                     d.go(op, x, Vec::new(), Vec::new());
                 }
                 // position markers: lane i holds i+1
                 let x: Vec<T> = (0..u).map(|i| T::from_bits(i as u64 + 1)).collect();
                 d.go(op, x, Vec::new(), Vec::new());
-            },
+            }
             Base::SumFold | Base::MaxFold | Base::MinFold => {
                 let n = tier.pick(300, 6000);
                 for i in 0..n {
@@ -756,7 +828,9 @@ fn drive<T: Elem>(ctx: &mut Ctx, reg: &'static str, lanes: usize, eval: EvalFn<T
                                     (Base::SumFold, _) => vals::scaled_float(&mut rng, -20, 20),
                                     (_, 0) => *rng.pick(&bounds),
                                     (_, 1) => vals::random_bits::<T>(&mut rng, false),
-                                    (_, 2) => T::from_f64(-(vals::scaled_float::<T>(&mut rng, -8, 8).to_f64().abs())),
+                                    (_, 2) => T::from_f64(
+                                        -(vals::scaled_float::<T>(&mut rng, -8, 8).to_f64().abs()),
+                                    ),
                                     _ => vals::scaled_float(&mut rng, -8, 8),
                                 }
                             } else {
@@ -773,18 +847,32 @@ fn drive<T: Elem>(ctx: &mut Ctx, reg: &'static str, lanes: usize, eval: EvalFn<T
                     // unique extreme at a rotating lane position
                     if base != Base::SumFold && class == 3 {
                         let pos = i % (k * u);
-                        x[pos] = if base == Base::MaxFold { T::highest() } else { T::lowest() };
+                        x[pos] = if base == Base::MaxFold {
+                            T::highest()
+                        } else {
+                            T::lowest()
+                        };
                     }
                     d.go(op, x, Vec::new(), Vec::new());
                 }
                 // extreme / marker at every lane position of one batch
                 for pos in 0..u {
-                    let fill = if base == Base::MaxFold { T::lowest() } else if base == Base::MinFold { T::highest() } else { T::zero() };
+                    let fill = if base == Base::MaxFold {
+                        T::lowest()
+                    } else if base == Base::MinFold {
+                        T::highest()
+                    } else {
+                        T::zero()
+                    };
                     let mut x = vec![fill; u];
-                    x[pos] = if T::FLOAT { T::from_f64(3.0) } else { T::from_bits(3) };
+                    x[pos] = if T::FLOAT {
+                        T::from_f64(3.0)
+                    } else {
+                        T::from_bits(3)
+                    };
                     d.go(op, x, Vec::new(), Vec::new());
                 }
-            },
+            }
             Base::Add | Base::Sub | Base::Mul | Base::Div | Base::Min | Base::Max | Base::Fmadd => {
                 let nan_ok = !matches!(base, Base::Min | Base::Max);
                 let bset: &Vec<T> = if nan_ok { &bounds_nan } else { &bounds };
@@ -807,7 +895,11 @@ fn drive<T: Elem>(ctx: &mut Ctx, reg: &'static str, lanes: usize, eval: EvalFn<T
                             break;
                         }
                         for j in 0..l as u64 {
-                            let p = if full_rot { (r + j * stride) % npairs } else { (r * l as u64 + j) % npairs };
+                            let p = if full_rot {
+                                (r + j * stride) % npairs
+                            } else {
+                                (r * l as u64 + j) % npairs
+                            };
                             x.push(T::from_bits(p >> vb));
                             y.push(fixy(T::from_bits(p & ((1 << vb) - 1))));
                             if base == Base::Fmadd {
@@ -816,7 +908,12 @@ fn drive<T: Elem>(ctx: &mut Ctx, reg: &'static str, lanes: usize, eval: EvalFn<T
                         }
                         r += 1;
                         if x.len() >= batch_lanes && x.len() % u == 0 {
-                            d.go(op, std::mem::take(&mut x), std::mem::take(&mut y), std::mem::take(&mut z));
+                            d.go(
+                                op,
+                                std::mem::take(&mut x),
+                                std::mem::take(&mut y),
+                                std::mem::take(&mut z),
+                            );
                         }
                     }
                     if !x.is_empty() {
@@ -852,7 +949,12 @@ fn drive<T: Elem>(ctx: &mut Ctx, reg: &'static str, lanes: usize, eval: EvalFn<T
                         if base == Base::Fmadd {
                             pad(&mut z, u);
                         }
-                        d.go(op, std::mem::take(&mut x), std::mem::take(&mut y), std::mem::take(&mut z));
+                        d.go(
+                            op,
+                            std::mem::take(&mut x),
+                            std::mem::take(&mut y),
+                            std::mem::take(&mut z),
+                        );
                     }
                     let nrand = tier.pick(40usize, 1500);
                     for i in 0..nrand {
@@ -862,7 +964,9 @@ fn drive<T: Elem>(ctx: &mut Ctx, reg: &'static str, lanes: usize, eval: EvalFn<T
                         let n = batch_lanes / u * u;
                         let n = n.max(u);
                         let x: Vec<T> = (0..n).map(|_| vals::mixed(&mut rng, bset, nan_ok)).collect();
-                        let y: Vec<T> = (0..n).map(|_| fixy(vals::mixed(&mut rng, bset, nan_ok))).collect();
+                        let y: Vec<T> = (0..n)
+                            .map(|_| fixy(vals::mixed(&mut rng, bset, nan_ok)))
+                            .collect();
                         let z: Vec<T> = if base == Base::Fmadd {
                             (0..n).map(|_| vals::mixed(&mut rng, bset, nan_ok)).collect()
                         } else {
@@ -872,10 +976,18 @@ fn drive<T: Elem>(ctx: &mut Ctx, reg: &'static str, lanes: usize, eval: EvalFn<T
                     }
                     // fmadd: products that need the extra precision (fused vs unfused differ)
                     if base == Base::Fmadd && T::FLOAT {
-                        let eps = if T::BITS == 32 { 2f64.powi(-12) } else { 2f64.powi(-27) };
+                        let eps = if T::BITS == 32 {
+                            2f64.powi(-12)
+                        } else {
+                            2f64.powi(-27)
+                        };
                         let n = (256 / u).max(1) * u;
-                        let x: Vec<T> = (0..n).map(|i| T::from_f64(1.0 + eps * (1 + i % 7) as f64)).collect();
-                        let y: Vec<T> = (0..n).map(|i| T::from_f64(1.0 - eps * (1 + i % 5) as f64)).collect();
+                        let x: Vec<T> = (0..n)
+                            .map(|i| T::from_f64(1.0 + eps * (1 + i % 7) as f64))
+                            .collect();
+                        let y: Vec<T> = (0..n)
+                            .map(|i| T::from_f64(1.0 - eps * (1 + i % 5) as f64))
+                            .collect();
                         let z: Vec<T> = (0..n).map(|_| T::from_f64(-1.0)).collect();
                         d.go(op, x, y, z);
                     }
@@ -889,7 +1001,7 @@ fn drive<T: Elem>(ctx: &mut Ctx, reg: &'static str, lanes: usize, eval: EvalFn<T
                         d.go(op, x, y, Vec::new());
                     }
                 }
-            },
+            }
         }
     }
     let calls = d.calls;
@@ -919,20 +1031,53 @@ pub fn jobs(_tier: Tier, rng: &mut Rng) -> (String, Vec<Job>) {
     let mut jobs: Vec<Job> = Vec::new();
     let nightly = cfg!(feature = "nightly");
     let none: Option<usize> = None;
-    add_jobs!(jobs, rng, "Fallback", eval_fallback, none, if nightly { Fused::Either } else { Fused::No }, nightly,
-        [f32, f64, i8, i16, i32, i64, u8, u16, u32, u64]);
+    add_jobs!(
+        jobs,
+        rng,
+        "Fallback",
+        eval_fallback,
+        none,
+        if nightly { Fused::Either } else { Fused::No },
+        nightly,
+        [f32, f64, i8, i16, i32, i64, u8, u16, u32, u64]
+    );
     if std::arch::is_x86_feature_detected!("avx2") {
-        add_jobs!(jobs, rng, "Avx2", eval_avx2, Some(32usize), Fused::No, false,
-            [f32, f64, i8, i16, i32, i64, u8, u16, u32, u64]);
+        add_jobs!(
+            jobs,
+            rng,
+            "Avx2",
+            eval_avx2,
+            Some(32usize),
+            Fused::No,
+            false,
+            [f32, f64, i8, i16, i32, i64, u8, u16, u32, u64]
+        );
         if std::arch::is_x86_feature_detected!("fma") {
-            add_jobs!(jobs, rng, "Avx2Fma", eval_avx2fma, Some(32usize), Fused::Yes, false, [f32, f64]);
+            add_jobs!(
+                jobs,
+                rng,
+                "Avx2Fma",
+                eval_avx2fma,
+                Some(32usize),
+                Fused::Yes,
+                false,
+                [f32, f64]
+            );
         }
     }
     #[cfg(feature = "nightly")]
     {
         if crate::elem::Backend::Avx512.host_supports() {
-            add_jobs!(jobs, rng, "Avx512", eval_avx512, Some(64usize), Fused::Yes, false,
-                [f32, f64, i8, i16, i32, i64, u8, u16, u32, u64]);
+            add_jobs!(
+                jobs,
+                rng,
+                "Avx512",
+                eval_avx512,
+                Some(64usize),
+                Fused::Yes,
+                false,
+                [f32, f64, i8, i16, i32, i64, u8, u16, u32, u64]
+            );
         }
     }
     (RULE.to_string(), jobs)
